@@ -164,7 +164,7 @@ func fdTable(c *Ctx, p *core.Prog, s *eng.SortSite, field string) (bool, string)
 		return false, ""
 	}
 	et := core.TypeName(s.Cmp.ElemType)
-	if strings.HasSuffix(et, "/v2.matchRange") && s.Fn.Name() == "targetMatchedRanges" {
+	if strings.HasSuffix(et, "/v2.matchRange") && p.IsFn(s.Fn, v2pkg, "targetMatchedRanges") {
 		switch field {
 		case "TargetEnd":
 			// verified: every element gets TokensClaimed = TargetEnd - TargetStart before the sort
@@ -263,7 +263,7 @@ func checkNondet(c *Ctx, p *core.Prog, e *eng.Explorer) {
 			}
 			nSites++
 			recv := call.Common().Args[0]
-			key := core.ShortFn(fn) + ": " + strings.TrimPrefix(n, "(*"+core.DiffPkg+".DiffMatchPatch).") + " runs under a wall-clock DiffTimeout"
+			key := "the word diff (" + strings.TrimPrefix(n, "(*"+core.DiffPkg+".DiffMatchPatch).") + ") runs under a wall-clock DiffTimeout"
 			if ok, why := timeoutDisabled(fn, recv, call); ok {
 				c.R.OK("R04.5", core.ShortFn(fn)+": diff runs with DiffTimeout disabled", p.Pos(call.Pos()), why)
 			} else {
@@ -369,7 +369,7 @@ func checkTokenIDUses(c *Ctx, p *core.Prog) {
 				case token.EQL, token.NEQ:
 					continue
 				}
-				if fn.Name() == "add" && strings.HasSuffix(core.ShortFn(fn), "dictionary).add") {
+				if p.IsFn(fn, v2pkg, "(*dictionary).add") {
 					continue
 				}
 				bad++
